@@ -44,6 +44,7 @@ RULE += (" Also: the caller's one-shot iterator (synchronous or asynchronous) is
 RULE += (' Also: any_iter over an async iterator that sets itself up in __aiter__.')
 RULE += (' Also: await_each over a sequence that offers __getitem__ only.')
 RULE += (' Also: apply awaits its keywords in the order of the call, whatever their names.')
+RULE += (' Also: sync() wrappers of two distinct callables that compare and hash equal.')
 ASSUMPTIONS = ["direct specification oracle (no stdlib twin exists for these helpers)"]
 EXHAUSTIVE = {"quick": True, "thorough": True}
 MAX_SHARDS = 8
@@ -98,7 +99,8 @@ def cases(tier, seed, shard, nshards):
             idx += 1
             if idx % nshards == shard:
                 yield {"kind": "sync_related", "pattern": pattern, "order": order}
-    for how in ("keyword_named_function", "keyword_named_like_internals", "class_attribute", "class_attribute_async_def"):
+    for how in ("keyword_named_function", "keyword_named_like_internals", "class_attribute", "class_attribute_async_def",
+                "equal_callables"):
         idx += 1
         if idx % nshards == shard:
             yield {"kind": "sync_calling_conventions", "how": how}
@@ -1173,6 +1175,28 @@ def run_sync_calling_conventions(case, stats):
         if how == "keyword_named_function":
             res = drive(_await(A.sync(takes_function)(7, function=3)))
             want_seen = [(7, 3, None, None, None, None, None, None)]
+        elif how == "equal_callables":
+            # two DISTINCT callable objects that compare (and hash) equal - value objects like a frozen dataclass with
+            # __call__ - are still two callables: each wrapper calls the object it was made for
+            class Scale:
+                def __init__(self, factor, tag):
+                    self.factor, self.tag = factor, tag
+
+                def __eq__(self, other):
+                    return isinstance(other, Scale) and self.factor == other.factor
+
+                def __hash__(self):
+                    return hash(self.factor)
+
+                def __call__(self, x):
+                    seen.append((self.tag, x))
+                    return (self.tag, self.factor * x)
+
+            first, second = A.sync(Scale(2, "first")), A.sync(Scale(2.0, "second"))
+            res = (drive(_await(first(3))), drive(_await(second(3))), drive(_await(first(4))))
+            if res != (("first", 6), ("second", 6.0), ("first", 8)) or seen != [("first", 3), ("second", 3), ("first", 4)]:
+                viols.append({"key": "sync/result", "msg": f"sync wrappers of two equal callables: results {res!r}, calls {seen!r}"})
+            res, want_seen = ("result", 7), seen
         elif how == "keyword_named_like_internals":
             res = drive(_await(A.sync(takes_function)(7, func=1, self=2, args=3, kwargs=4, wrapped=5, callable=6)))
             want_seen = [(7, None, 1, 2, 3, 4, 5, 6)]
